@@ -48,7 +48,8 @@
      (Needs tree p only.)
 
    WHAT IS NOT PROVED HERE (covered by the correspondence harness + monitors in harness/props/c07.py):
-   - programs that branch on ReadVar values, Let/Sync (synchronous re-entry through .value()), Probe,
+   - programs containing ReadVar (see PROGRAMS WITH ACTUAL READS at the end of this comment for the partial
+     results on non-branching reads), Let/Sync (synchronous re-entry through .value()), Probe,
      NonAsyncContext (raises on pause/resume), AsyncContext objects whose resume()/pause() raise,
      async_override of attributes, with-blocks left open when a task ends (generator.close() path of
      complete_task), non-pointwise services, shared futures (DAGs), and runs in which the task-stack
@@ -99,8 +100,29 @@
      read theorem is stated on the machine state at the moments a task's code runs).  Still excluded:
      ReadVar/Probe-branching programs, Sync on an existing
      handle (LOld / shared futures), NonAsyncContext and raising contexts, with-blocks left open at task end,
-     non-pointwise services, runs in which the task-stack guard fired. *)
+     non-pointwise services, runs in which the task-stack guard fired.
+
+   ---------------------------------------------------------------------------------------------------------
+   PROGRAMS WITH ACTUAL READS (end of this file; proofs in proofs/MachineC07R.v) - PARTIAL.
+     MachineC07R.rtree0 - tree programs plus ReadVar whose continuation does not depend on the value read
+                (forall v v', k v = k v'); MachineC07R.wnr - wn plus reads; MachineC07R.erase - the program with its
+                reads removed.
+   PROVED: C07_erased_program_is_covered_rtree0 - for rtree0 p with wnr [] p, [erase p] is a tree program with well
+     nested blocks, so every theorem of the first part applies to the run of [erase p].
+     C07_reads_do_not_branch_rtree0 - at every configuration of the run of an rtree0 program (any P, any fuel) the
+     running body is rtree0; in particular whenever the machine is at a read, MRun t (ReadVar x k), erasing the
+     continuation gives the same program whatever value the read returns (erase (k v) = erase (ReadVar x k)): the
+     read step of p is a stutter of the run of [erase p].
+     In proofs/MachineC07R.v (not exported): the state erasure est (generators erased entry-wise, EvRead events
+     filtered out) commutes with put, set_task, enter_ctx, exit_ctx, complete_task, accept_error, resume_contexts,
+     pause_contexts, complete_item, flush_body, flush_batch, first_max, schedule_batch and create.
+   NOT PROVED: the stuttering simulation itself (commutation for select/continue_with_batch/inst and the case analysis
+     of step), hence NOT the transported theorems "the value an actual EvRead returns is apply_l init (layers s) x"
+     (C07_actual_reads_*_rtree0, C07_values_restored_rtree0) and value() = eval (erase p); nothing for programs that
+     BRANCH on read values (class rtree, sequential evaluator with dynamic scoping evalV / resolve: not started).
+     These remain covered by the correspondence harness + monitors only. *)
 From Asynq Require Import Machine Seq proofs.MachineC08 proofs.MachineC01 proofs.MachineC04 proofs.MachineC07.
+From Asynq Require Import proofs.MachineC07R.
 From Asynq Require Import proofs.MachineC01S proofs.MachineDFSS proofs.MachineC06S proofs.MachineC07S.
 
 (* T1 *)
@@ -348,3 +370,16 @@ Theorem C07_stree_hypotheses_are_met :
   x 200%nat = VInt 0.
 Proof. exact c07s_demo_runs. Qed.
 Print Assumptions C07_stree_hypotheses_are_met.
+
+(* ================================================================== programs with actual, non-branching reads (rtree0, wnr) *)
+Theorem C07_erased_program_is_covered_rtree0 : forall p, rtree0 p -> wnr [] p -> tree (erase p) /\ wn [] (erase p).
+Proof. exact erase_covered. Qed.
+Print Assumptions C07_erased_program_is_covered_rtree0.
+
+Theorem C07_reads_do_not_branch_rtree0 : forall P p n t q, rtree0 p ->
+  let h := fst (create [] (FTask p) (st0 P)) in
+  let s1 := snd (create [] (FTask p) (st0 P)) in
+  c_mode (run P n (start h s1)) = MRun t q ->
+  rtree0 q /\ forall x k, q = ReadVar x k -> forall v, erase (k v) = erase q.
+Proof. exact rtree0_run_class. Qed.
+Print Assumptions C07_reads_do_not_branch_rtree0.
